@@ -131,7 +131,7 @@ def nontrivial(chk, p, r, m):
 
 
 def run(chk):
-    n = 300 if chk.tier == "quick" else 8000
+    n = 900 if chk.tier == "quick" else 8000
     chk.rule = ("random projects with download / custom build / is_build_dep / is_global_build_dep modules in arbitrary uses/depends graphs; whole "
                 "ninja file compared with the model's; oracle recomputes the users-closure from the dumped imports and checks the order-only (|) "
                 "section of every compile statement and of the link, phony declarations of downloaded sources, and that dep-cycle builds are "
